@@ -245,6 +245,9 @@ SIG = {
     'segwit_init': ('keys.py', 'SegwitAddress.__init__',
                     [('segwit_hrp', 'List Char'), ('address', 'Option (List Char)'), ('witness_program', 'Option Bytes'), ('version', 'String')],
                     'Int × Bytes'),
+    'segwit_init_script': ('keys.py', 'SegwitAddress.__init__',
+                           [('hashlib_sha256', 'Bytes → Bytes'), ('OPS', 'List (String × Bytes)'), ('script', 'List Py.PyTok'), ('version', 'String')],
+                           'Int × Bytes'),
     'pubkey_get_segwit_address': ('keys.py', 'PublicKey.get_segwit_address',
                                   [('segwit_hrp', 'List Char'), ('hashlib_sha256', 'Bytes → Bytes'), ('self_key_string', 'Bytes')], 'Int × Bytes'),
     # PublicKey.get_taproot_address: the P2TR object — (witness version, output key x) and the parity flag it stores
@@ -315,7 +318,7 @@ STRFUNS = {'bech32_encode': {'combined': 'List Int'},
            'is_hash160_valid': {}, 'address_init_hash160': {}, 'pubkey_get_address': {'addr_string_hex': 'List Char'},
            'is_address_bech32': {'hrp': 'Option (List Char)'},
            'segwit_address_to_hash': {'witness_version': 'Option Int', 'witness_int_array': 'Option (List Int)'},
-           'segwit_to_string': {'witness_int_array': 'List Int'}, 'segwit_init': {'segwit_num_version': 'Int'},
+           'segwit_to_string': {'witness_int_array': 'List Int'}, 'segwit_init': {'segwit_num_version': 'Int'}, 'segwit_init_script': {'segwit_num_version': 'Int'},
            'pubkey_get_segwit_address': {}}
 STR_DEFAULT = {'Int': '(0 : Int)', 'List Char': '([] : List Char)', 'List Int': '([] : List Int)'}
 # callees by Python name inside bech32.py: (generated name, returns an Option?)
@@ -574,7 +577,12 @@ class Tr:
         if (isinstance(n, ast.Attribute) and isinstance(n.value, ast.Name) and n.value.id == 'self' and 'self_' + n.attr in s.params
                 and s.name in ('segwit_address_to_hash', 'segwit_to_string')):
             return 'self_' + n.attr
-        if s.name == 'segwit_init':
+        if s.name == 'segwit_init_script':
+            if (isinstance(n, ast.Call) and isinstance(n.func, ast.Name) and n.func.id == '_script_to_hash' and len(n.args) == 1 and not n.keywords
+                    and isinstance(n.args[0], ast.Name) and n.args[0].id in s.toklists):
+                return s.eff(f'segwit_script_to_hash hashlib_sha256 OPS {n.args[0].id}')
+            if isinstance(n, ast.Call) and isinstance(n.func, ast.Name) and n.func.id == 'isinstance': return 'true'
+        if s.name in ('segwit_init', 'segwit_init_script'):
             if isinstance(n, ast.Name) and n.id in ('P2WPKH_ADDRESS_V0', 'P2WSH_ADDRESS_V0', 'P2TR_ADDRESS_V1') and n.id not in s.declared:
                 return lean_str(CONST_STRS[n.id])
             if isinstance(n, ast.Name) and n.id == 'version': return 'version'
@@ -1728,7 +1736,7 @@ class Tr:
                 kw_ = '' if nm in s.declared else 'let mut '
                 s.declared.add(nm); s.hexvars.add(nm); s.bytesvars.add(nm)
                 return s.flush(ind) + [f'{ind}{kw_}{nm} := {hb}']
-        if s.name == 'segwit_init' and isinstance(st, ast.Return) and isinstance(st.value, ast.Tuple) and len(st.value.elts) == 2:
+        if s.name in ('segwit_init', 'segwit_init_script') and isinstance(st, ast.Return) and isinstance(st.value, ast.Tuple) and len(st.value.elts) == 2:
             a_ = s.e(st.value.elts[0]); b_ = s.e(st.value.elts[1])
             return s.flush(ind) + [f'{ind}return ({a_}, {b_})']
         if s.name == 'segwit_to_string' and isinstance(st, ast.Return) and isinstance(st.value, ast.Call):
@@ -2083,15 +2091,25 @@ class Tr:
         node.body = [top]
         return node
 
-    def ctor_segwit(s, node):
+    def ctor_segwit(s, node, keep_script=False):
         """SegwitAddress.__init__ with script=None: `self.version = version` is the parameter itself, `self.segwit_num_version = k` a local,
         an `elif script:` arm is dropped (script is None), and `self.witness_program = E` — the last thing a path does — returns
         `(segwit_num_version, E)`."""
         import copy as _copy
         node = _copy.deepcopy(node)
         defaults = {a.arg: d for a, d in zip(node.args.args[-len(node.args.defaults):], node.args.defaults)} if node.args.defaults else {}
-        if not ('script' in defaults and isinstance(defaults['script'], ast.Constant) and defaults['script'].value is None):
-            s.fail(node, 'constructor parameter script no longer defaults to None')
+        none_params = ['address', 'witness_program'] if keep_script else ['script']
+        for k_ in none_params:
+            if not (k_ in defaults and isinstance(defaults[k_], ast.Constant) and defaults[k_].value is None):
+                s.fail(node, f'constructor parameter {k_} no longer defaults to None')
+        if keep_script:
+            st_ = ast.parse(open(f'{REPO}/bitcoinutils/script.py').read())
+            for c_ in st_.body:
+                if isinstance(c_, ast.ClassDef) and c_.name == 'Script':
+                    if c_.bases or any(isinstance(m_, ast.FunctionDef) and m_.name in ('__bool__', '__len__') for m_ in c_.body):
+                        s.fail(node, 'Script defines its own truthiness (or has a base class)')
+                    break
+            else: s.fail(node, 'class Script not found')
         body = [st for st in node.body if not (isinstance(st, ast.Expr) and isinstance(st.value, ast.Constant))]
         def self_store(st, field):
             return (isinstance(st, ast.Assign) and len(st.targets) == 1 and isinstance(st.targets[0], ast.Attribute)
@@ -2106,11 +2124,20 @@ class Tr:
                 return st
             def visit_If(self, st):
                 self.generic_visit(st)
-                if len(st.orelse) == 1 and isinstance(st.orelse[0], ast.If) and isinstance(st.orelse[0].test, ast.Name) \
-                        and st.orelse[0].test.id == 'script':
-                    st.orelse = st.orelse[0].orelse          # `elif script:` with script None: not taken
+                # an arm that tests a parameter which is None is not taken: the arm is replaced by what follows it
+                while len(st.orelse) == 1 and isinstance(st.orelse[0], ast.If) and isinstance(st.orelse[0].test, ast.Name) \
+                        and st.orelse[0].test.id in none_params:
+                    st.orelse = st.orelse[0].orelse
+                if isinstance(st.test, ast.Name) and st.test.id in none_params:
+                    return st.orelse if st.orelse else ast.Pass()
+                if keep_script and isinstance(st.test, ast.Name) and st.test.id == 'script':
+                    st.test = ast.copy_location(ast.Constant(value=True), st.test)       # a Script object is truthy (checked above)
                 return st
-        body = [V().visit(st) for st in body]
+        body_ = []
+        for st in body:
+            r_ = V().visit(st)
+            body_ += r_ if isinstance(r_, list) else [r_]
+        body = body_
         def tail(block):
             if not block: return
             last = block[-1]
@@ -2123,7 +2150,7 @@ class Tr:
             for x in ast.walk(st):
                 if isinstance(x, ast.Attribute) and isinstance(x.value, ast.Name) and x.value.id == 'self' and isinstance(x.ctx, ast.Store):
                     s.fail(x, 'self.* stored other than version / segwit_num_version / the final witness_program')
-                if isinstance(x, ast.Name) and x.id == 'script': s.fail(x, 'the constructor reads script, which is None')
+                if isinstance(x, ast.Name) and x.id in none_params: s.fail(x, 'the constructor reads a parameter that is None')
         node.body = body
         return node
 
@@ -2377,6 +2404,8 @@ class Tr:
             node = s.ctor_branch(node, 'hash160', ['address', 'script'], 'hash160')
         if s.name == 'segwit_init':
             node = s.ctor_segwit(node)
+        if s.name == 'segwit_init_script':
+            node = s.ctor_segwit(node, keep_script=True)
         if s.name == 'address_init_address':
             node = s.ctor_branch(node, 'address', ['hash160', 'script'], 'hash160')
         if s.name == 'address_init_script':
